@@ -162,6 +162,11 @@ impl Read for WatchClose {
             let err_mask = Events::EPOLLRDHUP | Events::EPOLLHUP | Events::EPOLLERR;
 
             for ev in v.iter().take(r) {
+                // our own peer hung up, but what it sent before may still be unread:
+                // read on, the end of the stream shows as a read of zero bytes
+                if ev.data == 0 && Events::EPOLLIN.bits() & ev.events != 0 {
+                    continue;
+                }
                 if err_mask.bits() & ev.events != 0 {
                     return Err(io::Error::from(io::ErrorKind::BrokenPipe));
                 }
